@@ -105,6 +105,27 @@ def check_C09(tier, seed, res, replay=None):
         v = vlib.tlc_validate("TraceFA.tla", [ef])
         res.add_validation(v)
         res.report_fails(v["fails"], os.path.join(vlib.OUT, "viol"))
+    # step-level binding of the Layer-2 model: recorded executions of the real antichain algorithm must be behaviours of FAAntichain
+    import p_hist
+    pool = [c for c in cases if c["sel"] == "anti" and nt_pair(c)]
+    rng.shuffle(pool)
+    sample = [{"id": c["id"], "op": "faantitrace", "A": c["A"], "B": c["B"]} for c in pool[:12000 if tier == "thorough" else 2500]]
+    cf = os.path.join(rd, "bind.cases.ndjson")
+    vlib.write_ndjson(cf, sample)
+    items = []
+    for sh in vlib.drive(cf, os.path.join(rd, "bind.ev"), timeout_ms=3000):
+        for ev in vlib.read_ndjson(sh):
+            if ev.get("outcome") == "ok" and ev["res"]["events"] and ev["res"]["events"][0].get("e") == "Start":
+                items.append(({"id": ev.get("id"), "kind": "faanti", "A": ev["A"], "B": ev["B"]}, ev["res"]["events"]))
+    if items:
+        vb = p_hist.tlc_validate_seq("TraceFAAnti.tla", "TraceFAAnti.cfg", items, rd, "bind", emit_reset=False)
+        res.add_validation(vb)
+        res.extra["model_binding"] = {"FAAntichain": {"executions": len(items), "step_events_accepted": vb["events"], "diverged": len(vb["fails"]),
+                                                      "first_divergence": ({"case": vb["fails"][0][0], "at_event": vb["fails"][0][2]} if vb["fails"] else None)}}
+        if vb["fails"]:
+            print("MODEL-BINDING-DIVERGED model=FAAntichain executions=%d diverged>=%d (evidence only, not a violation)" % (len(items), len(vb["fails"])))
+    else:
+        res.extra["model_binding"] = {"FAAntichain": "no step events recorded (hook absent?)"}
     # Layer 0 self-check and Layer 2 model (safety + liveness over every pick order)
     shards = list(range(64)) if tier == "thorough" else [(seed * 5 + i * 4) % 64 for i in range(16)]
     m = vlib.tlc_sharded_check("FAcheck.tla", "FAcheck.cfg", 64, sorted(set(shards)))
